@@ -3,6 +3,7 @@ package c12
 import (
 	"bytes"
 	"fmt"
+	"net"
 	"net/url"
 	"runtime"
 	"sort"
@@ -12,6 +13,7 @@ import (
 	"time"
 
 	"github.com/gofiber/fiber/v3"
+	"github.com/valyala/fasthttp"
 	"pgregory.net/rapid"
 
 	"verifharness/vk"
@@ -62,6 +64,9 @@ func newApp(c Case, s *seen) *fiber.App {
 	app.Post("/go", goH)
 	app.Get("/next", func(ctx fiber.Ctx) error {
 		s.msgs, s.inputs = nil, nil
+		if ctx.Query("verifparse") == "1" {
+			fiber.VerifParseFlash(ctx) // in-process request: no raw header block, the request handler did not look for the cookie
+		}
 		for _, m := range ctx.Redirect().Messages() {
 			s.msgs = append(s.msgs, fmt.Sprintf("%q=%q@%d", m.Key, m.Value, m.Level))
 		}
@@ -211,7 +216,9 @@ func check(c Case) vk.Verdict {
 		carry = carry && lenientOK([]byte(kv[0])) && lenientOK([]byte(kv[1]))
 	}
 	if !carry {
-		return vk.Verdict{Excluded: "C12-a", Classes: []string{"not-replayable-even-leniently"}}
+		// finding C12-a: no HTTP client can return this cookie. So that nothing else hides behind the open finding, the same
+		// exchange is repeated in process (no header parsing; the flash cookie is decoded through the verif hook).
+		return checkInProcess(c, wantMsgs, wantInputs)
 	}
 	ck := [][2]string{{"Cookie", "fiber_flash=" + string(val)}}
 	out2, err := vk.Wire(app, vk.Req("GET", "/next", ck, nil))
@@ -263,6 +270,100 @@ func check(c Case) vk.Verdict {
 		v.Classes = append(v.Classes, "old-input")
 	}
 	v.Classes = append(v.Classes, "replayed")
+	return v
+}
+
+// crlfInEncoding: the msgpack encoding of the message set contains a CR or LF byte (in a string, as level 10/13, or as a
+// byte of a str16 length). Cookie() replaces those bytes since the C07-c repair, so such a set does not survive even in
+// process (part of C12-a: the encoding is not cookie-safe).
+func crlfInEncoding(c Case) bool {
+	bad := func(x string) bool {
+		if strings.ContainsAny(x, "\r\n") {
+			return true
+		}
+		if n := len(x); n >= 256 && n < 65536 {
+			hi, lo := byte(n>>8), byte(n)
+			return hi == '\r' || hi == '\n' || lo == '\r' || lo == '\n'
+		}
+		return false
+	}
+	for _, m := range c.Msgs {
+		if bad(m.K) || bad(m.V) || m.Level == '\r' || m.Level == '\n' {
+			return true
+		}
+	}
+	for _, kv := range c.Input {
+		if bad(kv[0]) || bad(kv[1]) {
+			return true
+		}
+	}
+	return false
+}
+
+func checkInProcess(c Case, wantMsgs, wantInputs []string) vk.Verdict {
+	if crlfInEncoding(c) {
+		return vk.Verdict{Excluded: "C12-a", Classes: []string{"not-replayable-even-in-process(CR/LF in the encoding)"}}
+	}
+	var s seen
+	app := newApp(c, &s)
+	q := url.Values{}
+	for _, kv := range c.Input {
+		if q.Get(kv[0]) == "" {
+			q.Add(kv[0], kv[1])
+		}
+	}
+	var r1 *fasthttp.RequestCtx
+	if c.InputForm && len(c.Input) > 0 {
+		r1 = vk.DoAddr(app, nil, "POST", "/go", []byte(q.Encode()), "Content-Type", "application/x-www-form-urlencoded")
+	} else if len(c.Input) > 0 {
+		r1 = vk.DoAddr(app, nil, "GET", "/go?"+q.Encode(), nil)
+	} else {
+		r1 = vk.DoAddr(app, nil, "GET", "/go", nil)
+	}
+	raw := r1.Response.Header.PeekCookie("fiber_flash")
+	if len(raw) == 0 {
+		return vk.Failf("in process: messages %v were attached but the redirect response has no flash cookie", wantMsgs)
+	}
+	val := bytes.TrimPrefix(raw, []byte("fiber_flash="))
+	if i := bytes.LastIndex(val, []byte("; path=/")); i >= 0 {
+		val = val[:i]
+	}
+	deliver := func(withCookie bool) *fasthttp.RequestCtx {
+		var req fasthttp.Request
+		req.Header.SetMethod("GET")
+		req.SetRequestURI("/next?verifparse=1")
+		if withCookie {
+			req.Header.SetCookieBytesKV([]byte("fiber_flash"), val)
+		}
+		ctx := &fasthttp.RequestCtx{}
+		ctx.Init(&req, &net.TCPAddr{IP: net.IPv4(10, 0, 0, 9), Port: 1234}, nil)
+		app.Handler()(ctx)
+		return ctx
+	}
+	r2 := deliver(true)
+	if r2.Response.StatusCode() != 200 {
+		return vk.Failf("in process: request 2 answered %d", r2.Response.StatusCode())
+	}
+	if strings.Join(s.msgs, "|") != strings.Join(wantMsgs, "|") {
+		return vk.Failf("in process (cookie %q cannot be carried by HTTP, C12-a): the next handler sees messages %v, want %v", val, s.msgs, wantMsgs)
+	}
+	if strings.Join(s.inputs, "|") != strings.Join(wantInputs, "|") {
+		return vk.Failf("in process (cookie %q cannot be carried by HTTP, C12-a): the next handler sees old input %v, want %v", val, s.inputs, wantInputs)
+	}
+	fc := fasthttp.AcquireCookie()
+	defer fasthttp.ReleaseCookie(fc)
+	fc.SetKey("fiber_flash")
+	if !r2.Response.Header.Cookie(fc) || !(fc.Expire().Before(time.Now()) && !fc.Expire().Equal(fasthttp.CookieExpireUnlimited) || fc.MaxAge() < 0) {
+		return vk.Failf("in process: the response that consumed the flash cookie does not expire it (%q)", r2.Response.Header.PeekCookie("fiber_flash"))
+	}
+	deliver(false)
+	if len(s.msgs)+len(s.inputs) != 0 {
+		return vk.Failf("in process: request without the cookie sees %v %v", s.msgs, s.inputs)
+	}
+	v := vk.Verdict{NonTrivial: len(wantMsgs)+len(wantInputs) >= 2, Classes: []string{"delivered-in-process(C12-a)"}}
+	if len(wantInputs) > 0 {
+		v.Classes = append(v.Classes, "old-input")
+	}
 	return v
 }
 
@@ -322,6 +423,10 @@ func genCase(t *rapid.T) Case {
 			c.Input = append(c.Input, [2]string{rapid.StringMatching(`[a-z]{1,6}`).Draw(t, "ik"), rapid.StringMatching(`[A-Za-z0-9_.!-]{1,10}`).Draw(t, "iv")})
 		}
 		c.InputForm = rapid.Bool().Draw(t, "form")
+		if len(c.Msgs) > 0 && rapid.IntRange(0, 2).Draw(t, "msgkey=inputkey") == 0 {
+			// the usual "error keyed by the field name" pattern: messages and old input are separate name spaces
+			c.Msgs[rapid.IntRange(0, len(c.Msgs)-1).Draw(t, "which")].K = c.Input[0][0]
+		}
 	}
 	return c
 }
